@@ -305,4 +305,29 @@ Section C10_end_to_end.
   Theorem C10_equal_size_total_wf : forall (g : gstate) k,
     WF g -> 1 <= k -> exists ps, bfs_equal_size_partitions g k = Ok ps.
   Proof. exact (equal_size_total_wf teqb tltb). Qed.
+  (* a component partition is unique: two partitions of the node list by the same relation
+     have the same classes (as sets) *)
+  Theorem C10_partition_unique : forall (nodes : list T) (rel : T -> T -> Prop) cs1 cs2,
+    is_component_partition nodes rel cs1 -> is_component_partition nodes rel cs2 ->
+    forall c1, In c1 cs1 -> exists c2, In c2 cs2 /\ forall y, In y c1 <-> In y c2.
+  Proof. exact (partition_unique (T:=T)). Qed.
+
+  (* hence the strong components do not depend on the neighbour iteration order (a per-case
+     flag of the Run module, now a theorem), and for the two orders the Run module evaluates -
+     insertion order and its reverse - no hypothesis on the order is left *)
+  Theorem C10_scc_order_independent : forall (ord1 ord2 : list T -> list T) (g : gstate) cs1 cs2,
+    (forall l x, In x (ord1 l) <-> In x l) -> (forall l x, In x (ord2 l) <-> In x l) ->
+    WF g ->
+    strongly_connected_components teqb ord1 g = Ok cs1 ->
+    strongly_connected_components teqb ord2 g = Ok cs2 ->
+    forall c1, In c1 cs1 -> exists c2, In c2 cs2 /\ forall y, In y c1 <-> In y c2.
+  Proof. exact (scc_order_independent teqb tltb teqb_spec tltb_total). Qed.
+
+  Theorem C10_scc_run_orders : forall (g : gstate),
+    WF g -> directed (sp g) = true ->
+    (exists cs, strongly_connected_components teqb (fun l => l) g = Ok cs /\
+                is_component_partition (g_nodes g) (g_strongly g) cs) /\
+    (exists cs, strongly_connected_components teqb (@rev T) g = Ok cs /\
+                is_component_partition (g_nodes g) (g_strongly g) cs).
+  Proof. exact (scc_run_orders teqb tltb teqb_spec tltb_total). Qed.
 End C10_end_to_end.
